@@ -25,7 +25,7 @@ cond    := {"c":"<"|">"|"<="|">=","a":expr,"b":expr} | {"c":"and"|"or","a":cond,
 import json
 import math
 
-from .num import Jet, EN, DomainError, EPS
+from .num import Jet, EN, DomainError, EPS, _m
 from . import forms as F
 
 NUM_H = 1e-6  # step of the library's documented numerical derivative fallback
@@ -562,7 +562,8 @@ def _pymath_call(f, args, trace):
     if f == "cosh":
         return (a.exp() + (-a).exp()) / 2.0
     if f == "atan":
-        return a._compose(EN(math.atan(a.v), abs(math.atan(a.v))), 1.0 / (a * a + 1.0))
+        g0 = 1.0 / (1.0 + a.v * a.v)
+        return a._compose(EN(math.atan(a.v), abs(math.atan(a.v)) + _m(g0, a.c[0].e), _m(g0, a.c[0].u)), 1.0 / (a * a + 1.0))
     if f == "hypot":
         b = args[1]
         # scaled like math.hypot: squaring 1e-170 would underflow to zero
